@@ -164,7 +164,7 @@ def build(c, servers):
 def model_cfg(c, name, depth, scenarios, invariants, emit):
     inv = list(invariants) + (["Emit"] if emit else [])
     return vlib.write_cfg(c, name, "SPECIFICATION Spec\nCONSTANTS Depth = %d Scenarios = %s\n%s%sCHECK_DEADLOCK FALSE\n"
-                          % (depth, "TRUE" if scenarios else "FALSE",
+                          % (depth, int(scenarios),
                              ("INVARIANTS " + " ".join(inv) + "\n") if inv else "",
                              "" if emit else "VIEW View\n"))
 
